@@ -6,6 +6,7 @@ From Coq.Strings Require Import Byte.
 From Borsh Require Import Bytes Result Ty Ser De Entry Schema SchemaFns SchemaSpec ArrayGuard Io Spec SchemaOf SchemaDec WithSchema Cost.
 From Borsh Require Import Discr Item DeriveCheck Derive.
 From Borsh Require Import Generics GenericsSchema.
+From Borsh Require Import IoRechunk.
 Require Import ExtrOcamlBasic.
 Extraction Language OCaml.
 (* stable names for the byte conversions: extraction renames [Byte.of_N]/[Byte.to_N] as soon as
@@ -20,7 +21,7 @@ Extraction "model.ml"
   ArrayGuard.deserialize
   check violations derive_ty documented_sem has_variant_attrs implicit_overflow type_dependent_discr discrs_canonical
   rust_discrs derive_discrs tag_eval canonical parse tokens_of
-  decr try_from_reader_count to_writer sw_write_all fw_write_all vw_write_all run_ops observable io_std io_shim world0
+  decr try_from_reader_count to_writer to_writer_cs sw_write_all fw_write_all vw_write_all run_ops observable io_std io_shim world0
   spec_enc refusable emit_len
   schema_of insert lookup has_schema decl_of sdec erase prim_decl prim_schema_width prim_width all_prims N.of_nat
   ty_container container_to_val val_to_container try_to_vec_with_schema try_from_slice_with_schema
